@@ -115,6 +115,7 @@ class Adam(Optimizer):
         
         self.m1 = [0 for _ in range(len(parameters))]
         self.m2 = [0 for _ in range(len(parameters))]
+        self.steps = [0 for _ in range(len(parameters))] # updates applied to each parameter
     
     def step(self):
         super().step()
@@ -133,8 +134,9 @@ class Adam(Optimizer):
                 # Update biased second raw moment estimate
                 self.m2[i] = self.beta2 * self.m2[i] + (1.0 - self.beta2) * grad**2.0
                 
-                m1_corrected = self.m1[i] / (1.0 - self.beta1**self.t)
-                m2_corrected = self.m2[i] / (1.0 - self.beta2**self.t)
+                self.steps[i] += 1
+                m1_corrected = self.m1[i] / (1.0 - self.beta1**self.steps[i])
+                m2_corrected = self.m2[i] / (1.0 - self.beta2**self.steps[i])
 
                 # Update the parameters using the Adam formula
                 p.data -= (self.lr * m1_corrected) / (np.sqrt(m2_corrected) + self.epsilon)
@@ -169,6 +171,7 @@ class AdamW(Optimizer):
         
         self.m1 = [0 for _ in range(len(parameters))]
         self.m2 = [0 for _ in range(len(parameters))]
+        self.steps = [0 for _ in range(len(parameters))] # updates applied to each parameter
         
     def step(self):
         super().step()
@@ -186,8 +189,9 @@ class AdamW(Optimizer):
                 # Update biased second raw moment estimate
                 self.m2[i] = self.beta2 * self.m2[i] + (1.0 - self.beta2) * grad**2.0
                 
-                m1_corrected = self.m1[i] / (1.0 - self.beta1**self.t)
-                m2_corrected = self.m2[i] / (1.0 - self.beta2**self.t)
+                self.steps[i] += 1
+                m1_corrected = self.m1[i] / (1.0 - self.beta1**self.steps[i])
+                m2_corrected = self.m2[i] / (1.0 - self.beta2**self.steps[i])
 
                 # Update the parameters using the Adam formula
                 p.data -= (self.lr * m1_corrected) / (np.sqrt(m2_corrected) + self.epsilon)
